@@ -239,8 +239,10 @@ def genLoopR (keep : Bool) (mask : Nat) (fixed : Bool) (raw : Option Bytes) (sp 
                       | .error e => .error e
                       | .ok (o, du, left, st') => .ok (r.out ++ rr.out ++ o, du, left, st')
 
-/-- `generate_pes_packet`: `.ok (PES packet bytes, unconverted lines, raw state)` -/
-def generatePesR (keep : Bool) (cfg : Cfg) (st : RawSt) (lines : List Sliced) (mask : Nat) (raw : Option Bytes)
+/-- `generate_pes_packet`, source shape "the test `1 == p_left && last_du_size >= 257` follows BOTH size branches"
+    (fill up to `min_packet_size` and round up to a multiple of 184), /repo since b15a657:
+    `.ok (PES packet bytes, unconverted lines, raw state)` -/
+def generatePesRBoth (keep : Bool) (cfg : Cfg) (st : RawSt) (lines : List Sliced) (mask : Nat) (raw : Option Bytes)
     (sp : Option Sp) (pts : Nat) : Except (RErr × List Sliced) (Bytes × List Sliced × RawSt) :=
   let fixed := fixedLengthFormat cfg.dataId
   -- the continuation check (dvb_mux.c:1442)
@@ -268,6 +270,49 @@ def generatePesR (keep : Bool) (cfg : Cfg) (st : RawSt) (lines : List Sliced) (m
       match encodeStuffing out pLeft lastDu fixed with
       | .error e => .error (.base e, left)
       | .ok body => .ok (pesHeader size pts cfg.dataId ++ body, left, st')
+
+/-- `generate_pes_packet`, source shape "the test `1 == p_left && last_du_size >= 257` sits INSIDE the round-up branch
+    `if (remainder > 0) { ... }`" and is not applied when the packet is filled up to `min_packet_size` (seeded change C06-e;
+    round 6).  Everything else as in `generatePesRBoth`. -/
+def generatePesRRound (keep : Bool) (cfg : Cfg) (st : RawSt) (lines : List Sliced) (mask : Nat) (raw : Option Bytes)
+    (sp : Option Sp) (pts : Nat) : Except (RErr × List Sliced) (Bytes × List Sliced × RawSt) :=
+  let fixed := fixedLengthFormat cfg.dataId
+  -- the continuation check (dvb_mux.c:1442)
+  let interrupted : Except RErr Bool :=
+    if st.left > 0 then
+      match lines, sp with
+      | [], _ => .ok true
+      | s :: _, some sp' => .ok (s.id ≠ SL_VBI625 ∨ st.line ≠ s.line ∨ st.offset ≠ sp'.offset ∨ st.spl ≠ sp'.spl)
+      | s :: _, none => if s.id ≠ SL_VBI625 ∨ st.line ≠ s.line then .ok true else .error (.base (.oob "sp == NULL dereferenced"))
+    else .ok false
+  match interrupted with
+  | .error e => .error (e, lines)
+  | .ok true => .error (.rawDataInterruption, lines)
+  | .ok false =>
+    match genLoopR keep mask fixed raw sp (lines.length + 1) (cfg.maxSize - 46) 0 0 st lines with
+    | .error e => .error e
+    | .ok (out, lastDu, left, st') =>
+      let size0 := 46 + out.length
+      let pLeft :=
+        if size0 < cfg.minSize then cfg.minSize - size0
+        else if size0 % 184 > 0 then
+          -- the test inside `if (remainder > 0) { p_left = 184 - remainder; ... }`
+          (if keep ∧ 184 - size0 % 184 = 1 ∧ lastDu ≥ 257 then 184 - size0 % 184 + 184 else 184 - size0 % 184)
+        else 0
+      let size := size0 + pLeft
+      match encodeStuffing out pLeft lastDu fixed with
+      | .error e => .error (.base e, left)
+      | .ok body => .ok (pesHeader size pts cfg.dataId ++ body, left, st')
+
+/-- `generate_pes_packet` as it is in the tree under test: `Zvbi.Gen.muxBumpBothPaths` (regenerated from the source by
+    translate/gen_muxflags.py on every run) says where the test `1 == p_left && last_du_size >= 257` sits.  The theorems are
+    proved through `generatePesR_both` (`Mux/PesShape.lean`), which holds only for the shape of /repo: a tree with the
+    test moved into the round-up branch still has a model the driver follows, but the proofs no longer build. -/
+def generatePesR (keep : Bool) (cfg : Cfg) (st : RawSt) (lines : List Sliced) (mask : Nat) (raw : Option Bytes)
+    (sp : Option Sp) (pts : Nat) : Except (RErr × List Sliced) (Bytes × List Sliced × RawSt) :=
+  match Zvbi.Gen.muxBumpBothPaths with
+  | true => generatePesRBoth keep cfg st lines mask raw sp pts
+  | false => generatePesRRound keep cfg st lines mask raw sp pts
 
 /-! ## vbi_dvb_mux_feed with `raw`, `sp` -/
 
